@@ -99,7 +99,7 @@ def plan(tier):
         "sweep_random_tail": True,
         "exhaustive": "",
         "random": [("random", {}, 1)],
-        "runs": 1500 if tier == "quick" else None,
+        "runs": 6000 if tier == "quick" else None,
         "budget_s": 60 if tier == "quick" else 900,
         "batch": 25,
     }
@@ -173,6 +173,10 @@ def run(scenario, params, tape, detail=False):
                         c["result"] = ("raised", e)
                 else:
                     c["result"] = ("returned", r)
+            except asyncio.CancelledError:
+                raise
+            except Exception as e:  # noqa: BLE001 - raised synchronously by the proxy call itself
+                c["result"] = ("raised", e)
             finally:
                 c["ended"] = ev()
 
@@ -378,6 +382,10 @@ def run(scenario, params, tape, detail=False):
                 continue
             if not overl and outcome == "done":
                 viol.append(("C20.relay", "no-result", f"call {c['id']} ({k}) issued at event {c['issued']} never produced a result (no force_stop overlap)"))
+            continue
+        if res[0] == "raised" and isinstance(res[1], RuntimeError) and "closed" in str(res[1]).lower():
+            # whatever the timing, a call that meets a closed (or just closing) owner loop is dropped, never answered with the loop's own RuntimeError
+            viol.append(("C20.closed", "raised-instead-of-dropped", f"call {c['id']} ({k}) met the closing owner loop and raised {res[1]!r} into the caller instead of being dropped"))
             continue
         if k in ("plain_none", "plain_value"):
             if res != ("returned", None):
